@@ -59,6 +59,7 @@ func c04Exchange(c *Cache, ctx context.Context, req *dns.Msg) (*dns.Msg, subQuer
 // a sub-query that failed contributes nothing and changes nothing.
 //
 //verif:entry tier=quick,thorough
+//verif:also C08
 //verif:bound outer answer alias.example. CNAME target.example. for an A question; sub-query outcome: error, bare NXDOMAIN, NXDOMAIN+SOA, A answer, NODATA+SOA, empty NOERROR; sub-query cut any instant; outer cut absent or any instant
 func VerifC04_ChaseInheritsLifetime() {
 	c04Sub.calls = 0
